@@ -665,7 +665,6 @@ func doRecover(caller *frame) value {
 	return iface{}
 }
 
-
 func isEnginePanic(p interface{}) bool {
 	switch p.(type) {
 	case pathEnd, blockedPanic:
